@@ -54,7 +54,7 @@ class TlcResult:
         return self.lines.get(tag, [])
 
 
-_COV_RE = re.compile(r"^<(\w+) line \d+, col \d+ to line \d+, col \d+ of module (\w+)>: (\d+):(\d+)")
+_COV_RE = re.compile(r"^<(\w+) line \d+, col \d+ to line \d+, col \d+ of module (\w+)(?: \([\d ]+\))?>: (\d+):(\d+)")
 
 
 def parse_tlc(out):
@@ -234,13 +234,13 @@ class Ctx:
         return os.path.join(SPECS, name)
 
     def model_check(self, module, cfg=None, workers=8, timeout=900, env=None, expect_actions=None,
-                    simulate=None, heap="8g", count=True):
+                    simulate=None, heap="8g", count=True, coverage=True):
         """Exhaustive (or simulated) TLC run of a bounded model. Any invariant violation here is a
         statement about the *specification*, reported as a tool error (the design must satisfy the
         monitors before they may judge code)."""
         mp = self.spec(module + ".tla")
         cp = self.spec((cfg or module) + ".cfg")
-        r = tlc(mp, cp, workers=workers, timeout=timeout, env=env, coverage=True, simulate=simulate, heap=heap)
+        r = tlc(mp, cp, workers=workers, timeout=timeout, env=env, coverage=coverage, simulate=simulate, heap=heap)
         log("  tlc %s: %d generated, %d distinct, depth %d, %.1fs%s" % (
             cfg or module, r.generated, r.distinct, r.depth, r.wall,
             "" if r.ok else " [NOT OK: %s]" % (r.violated or r.error)))
